@@ -277,6 +277,32 @@ def props_audit(prop, pins):
                 axioms=sorted(set(axioms)), closed=closed, problems=problems, log=out, print_assumptions=n_pa)
 
 
+def coq_deps(vfile):
+    """Transitive .v dependencies (within coq/) of a file, from the Makefile's dependency database."""
+    dfile = os.path.join(COQ, ".Makefile.d")
+    direct = {}
+    try:
+        text = open(dfile).read().replace("\\\n", " ")
+    except OSError:
+        return [vfile]
+    for line in text.split("\n"):
+        if ":" not in line:
+            continue
+        lhs, rhs = line.split(":", 1)
+        tgt = [t for t in lhs.split() if t.endswith(".vo")]
+        if not tgt:
+            continue
+        direct[tgt[0][:-1]] = [d[:-1] for d in rhs.split() if d.endswith(".vo") and not d.startswith("/")]
+    seen, todo = [], [vfile]
+    while todo:
+        f = todo.pop()
+        if f in seen:
+            continue
+        seen.append(f)
+        todo += direct.get(f, [])
+    return sorted(seen)
+
+
 def count_theorems(vfiles):
     """Count Lemma/Theorem/... statements in the given coq-relative files (for evidence)."""
     n = 0
